@@ -4,46 +4,51 @@
    table as it was (modulo successfully imported dependencies, see Acceptable), importing the failed
    file again fails again.  The state is the reference table; with VIEW ViewTbl one history is
    exported per (reachable table, file) pair instead of per history.  *)
-EXTENDS Symbols, Json
+EXTENDS Symbols, SymbolsUniverse, Json
 
 CONSTANTS MaxLen,        \* history length
           ExportFullLen, \* export every history up to this length ...
           ExportFailing, \* ... and longer ones whose last step fails (TRUE) / only complete ones (FALSE)
-          ExportUniverse
+          ExportUniverse,
+          Only           \* <<>>, or the one history to produce (replay of a saved case)
 
 VARIABLES tbl, hist
 vars == <<tbl, hist>>
 ViewTbl == tbl
+(* with the length: the number of exported cases does not depend on which worker reaches a table first *)
+ViewLen == <<tbl, Len(hist)>>
 
 Usable == {f \in FileIds : Compilable(f)}
+NoOnly == <<>>
 
 ProjSyms(T) == {[n |-> n, f |-> LookupRes(T, n)] : n \in DOMAIN T.syms}
 ProjExts(T) == {[e |-> k[1], t |-> k[2], f |-> T.exts[k]] : k \in DOMAIN T.exts}
 Proj(T) == [syms |-> ProjSyms(T), exts |-> ProjExts(T)]
 
-UniverseCase ==
-  [kind |-> "universe",
-   files |-> {[id |-> f, pkg |-> FD[f].pkg, syms |-> FD[f].syms, exts |-> FD[f].exts, deps |-> FD[f].deps,
-               usable |-> f \in Usable] : f \in FileIds}]
+(* the literal universe module is the universe this run is configured with *)
+FDConsistent == /\ FileIds = AllIds
+                /\ \A f \in FileIds : FDOf(f) = UFD0[f]
+UsableCase == [kind |-> "usable", ids |-> Usable]
 
 StepRec(T, f) ==
   LET r == RefImport(T, f)
   IN [f |-> f, ok |-> r.ok, tab |-> Proj(r.t),
       kinds |-> IF r.ok THEN {} ELSE
-                  (IF RefImportSeq(T, FD[f].deps).ok THEN CollisionKinds(r.t, f) ELSE {"dependency"}),
+                  (IF RefImportSeq(T, FDOf(f).deps).ok THEN CollisionKinds(r.t, f) ELSE {"dependency"}),
       acc |-> IF r.ok THEN {} ELSE {Proj(a) : a \in Acceptable(T, f)},
       reok |-> IF r.ok THEN TRUE ELSE RefImport(r.t, f).ok]
 
-Init == /\ tbl = EmptyTable
+Init == /\ FDConsistent
+        /\ tbl = EmptyTable
         /\ hist = <<>>
-        /\ (ExportUniverse => PrintT("CASE " \o ToJson(UniverseCase)))
+        /\ (ExportUniverse => PrintT("CASE " \o ToJson(UsableCase)))
 
 Exported(h) == \/ Len(h) <= ExportFullLen
                \/ ExportFailing /\ ~h[Len(h)].ok
                \/ ~ExportFailing /\ Len(h) = MaxLen
 
 Next == /\ Len(hist) < MaxLen
-        /\ \E f \in Usable :
+        /\ \E f \in (IF Only = <<>> THEN Usable ELSE {Only[Len(hist) + 1]}) :
              LET r == RefImport(tbl, f)
                  h == Append(hist, StepRec(tbl, f))
              IN /\ tbl' = r.t
@@ -58,5 +63,5 @@ RefFailedIsNoOp == \A f \in Usable :
                                            /\ f \notin r.t.files
                                            /\ SymNames(f) \cap DOMAIN r.t.syms \subseteq DOMAIN tbl.syms
 RefFailsIffCollision == \A f \in Usable :
-    (FD[f].deps = <<>> /\ f \notin tbl.files) => (RefImport(tbl, f).ok <=> ~Collides(tbl, f))
+    (FDOf(f).deps = <<>> /\ f \notin tbl.files) => (RefImport(tbl, f).ok <=> ~Collides(tbl, f))
 =============================================================================
